@@ -16,7 +16,7 @@ EXPLANATION = (
     "is incremented with the assignment (R4).")
 ASSUMPTIONS = ["hwloc-based topology queries return consistent numbers", "pika::detail::throws_if throws unless the caller supplied an error_code"]
 THOROUGH_CONFIGS = [["-UNDEBUG", "-DPIKA_DEBUG"]]
-FLOORS = {"C15.R1": 6, "C15.R2": 4, "C15.R3": 8, "C15.R4": 4, "C15.R5": 8, "C15.R6": 4}
+FLOORS = {"C15.R1": 6, "C15.R2": 4, "C15.R3": 8, "C15.R4": 4, "C15.R5": 8, "C15.R6": 4, "C15.R7": 2}
 
 DEC = ["decode_compact_distribution", "decode_scatter_distribution", "decode_balanced_distribution", "decode_numabalanced_distribution"]
 
@@ -260,6 +260,76 @@ def run(rep, tier):
     # ---- R5: the bound PU index is an individually tested one
     for d in DEC:
         tested_index_rule(rep, fn(d), d)
+
+    # ---- R7: a request the cores cannot take ends in an error, not in a loop
+    rep.rule("C15.R7", "K4 (progress): the round-robin decoders place threads in rounds over the cores and keep a per-core cursor across rounds (scatter, balanced); once every "
+             "usable PU of the cores is taken a round places nothing - --pika:cores / --pika:ignore-process-mask allow more threads than those cores have PUs, and "
+             "check_num_threads only compares with the machine or the mask.  Every turn of the outer 'while threads remain' loop therefore either places a thread or "
+             "leaves through the no-progress test that reports the error: the request is rejected instead of start-up hanging")
+    from engine.kinds import loop_of as _lo7, sccs as _scc7
+    n7 = 0
+    for d in DEC:
+        f = fn(d)
+        # the thread counter: the local stepped by ++ that the outer loop tests against the number of threads
+        cursors = [e for _, _, e in f.all_events() if (e.get("k") == "write" and re.match(r"^\w+\[num_core\]$|^\w+\[\w+\]$", P(e["lhs"])) and
+                                                       not P(e["lhs"]).startswith(("affinities", "num_pus[", "pu_indexes")) and e.get("op") == "=")]
+        if not cursors:
+            continue          # no per-core cursor: every round starts from the first PU again (compact), rounds cannot run dry
+        hdrs = [blk for blk in f.blocks.values() if blk.cond is not None and re.search(r"\bnum_thread < num_threads\b|\bnum_threads > num_thread\b", cond_atoms(blk.cond)[0]) and _lo7(f, blk.id)]
+        if not hdrs:
+            continue          # not a 'rounds until all threads are placed' decoder (numa-balanced distributes fixed per-socket shares)
+        for h in hdrs[:1]:
+            n7 += 1
+            lp = _lo7(f, h.id)
+            inc_blocks = set(b for b in lp if any(e.get("k") == "write" and e.get("op") in ("++", "+=") and P(e["lhs"]) == "num_thread" for e in f.blocks[b].events))
+            # blocks whose condition compares the counter with a snapshot taken at the start of the round; leaving over the 'equal' edge ends the loop
+            snap = [e["var"] for _, _, e in f.all_events() if e.get("k") == "decl" and e.get("init") is not None and T(strip(e["init"])) == "num_thread"]
+            test_blocks = set()
+            for b in lp:
+                blk = f.blocks[b]
+                if blk.cond is None:
+                    continue
+                a, pos = cond_atoms(blk.cond)
+                if any(re.search(r"\b%s\b" % re.escape(sv), a) for sv in snap) and "num_thread" in a and "==" in a:
+                    # on the 'equal' edge the loop must be left
+                    eq_lab = "true" if pos else "false"
+                    tgt = [t for l, t, _ in blk.succ if l == eq_lab]
+                    if tgt:
+                        # does the equal edge stay in the loop?
+                        seen, stack, back = set(), [tgt[0]], False
+                        while stack:
+                            v = stack.pop()
+                            if v in seen:
+                                continue
+                            seen.add(v)
+                            if v == h.id:
+                                back = True
+                                break
+                            stack += [t for _, t in f.succs(v) if t in lp]
+                        if not back:
+                            test_blocks.add(b)
+            rest = set(lp) - inc_blocks
+            # a cycle through the header inside rest that does not pass a no-progress test (on its non-equal edge the counter did change - but that edge is
+            # only reachable after an increment; so: remove test blocks as well)
+            rest -= test_blocks
+            seen, stack, stuck = set(), [t for _, t in f.succs(h.id) if t in rest], False
+            while stack:
+                v = stack.pop()
+                if v == h.id:
+                    stuck = True
+                    break
+                if v in seen:
+                    continue
+                seen.add(v)
+                stack += [t for _, t in f.succs(v) if t in rest or t == h.id]
+            if stuck:
+                rep.bad("C15.R7", f, h.events[-1].get("loc", f.loc) if h.events else f.loc, "round-without-progress:" + d, "%s can go round its outer loop over the threads without placing one "
+                        "and without noticing it (no test 'the round placed nothing' that leaves with an error): with more threads than the cores to use have processing units "
+                        "(--pika:ignore-process-mask --pika:cores=2 --pika:threads=4) start-up never returns instead of rejecting the request" % d)
+            else:
+                rep.ok("C15.R7", f, "%s: every round either places a thread or leaves with the error" % d)
+    if n7 < 2:
+        raise AnalysisBroken("C15.R7: round-robin decoders with a per-core cursor not found (%d)" % n7)
 
     # ---- R6: physical -> logical conversions
     from engine.kinds import reaching_init
